@@ -77,6 +77,7 @@ theorem off_iterCtor (dst : Nat) (w : IterCtor) (h : Option Item) (sc : IterScri
     cases hs with
     | built lay hal => exact ha.put _ dst (iter_handle_off w _ _)
     | noBlock k cls => exact ha
+    | noAlloc n hal => exact ha
     | leaked lay rl es k cls hes => exact ha
     | thinMismatch lay n1 hw hn hal => exact ha
 
@@ -457,6 +458,7 @@ theorem step_stable {s : State} (hi : Inv' s) (op : Op) : Stable s.mem (step s o
         cases hs with
         | built lay hal => exact Stable.append _ _ _ _
         | noBlock k cls => exact Stable.same_blocks rfl
+        | noAlloc n hal => exact Stable.same_blocks rfl
         | leaked lay rl es k cls hes => exact Stable.append _ _ _ _
         | thinMismatch lay n1 hw hn hal => exact Stable.append _ _ _ _
     | writeSlot src i v =>
